@@ -27,3 +27,8 @@ print("header rows:", repr(r.get_full_text()), [t.data for t in r.tables])
 # section / list in table
 r = run('<text:section>%s</text:section>' % P("SEC") + tbl([cell('<text:list><text:list-item>%s</text:list-item></text:list>' % P("LI"))]))
 print("section+list in cell:", repr(r.get_full_text()))
+# C13: comment in a table cell, heading in a cell, text frame in a cell paragraph
+DC = 'xmlns:dc="http://purl.org/dc/elements/1.1/"'
+ann = '<office:annotation %s><dc:creator>Bob</dc:creator><text:p>SECRET</text:p></office:annotation>' % DC
+r = run(tbl([cell('<text:p>CELL' + ann + '</text:p><text:h>HEAD_IN_CELL</text:h>') + cell(P('X<draw:frame><draw:text-box><text:p>BOXED</text:p></draw:text-box></draw:frame>'))]))
+print("cell comment/heading/frame:", [t.data for t in r.tables])
